@@ -36,8 +36,9 @@ pub fn dirs() -> Vec<Vector2> {
 const AXIS_FROM: usize = 8;
 const AXIS_TO: usize = 12;
 
-pub fn offsets() -> [Vector2; 2] {
-    [Vector2::new(0.0, 0.0), Vector2::new(100.0, -50.0)]
+pub fn offsets() -> [Vector2; 3] {
+    // the third one (tens of thousands of kilometres from the origin) is used by the three-point arcs only
+    [Vector2::new(0.0, 0.0), Vector2::new(100.0, -50.0), Vector2::new(3.0e7, -2.0e7)]
 }
 
 const REGIMES: [&str; 6] = ["concentric", "nested", "internally tangent", "crossing", "externally tangent", "separate"];
@@ -225,6 +226,30 @@ fn judge_outer(case: &Case, l: &mut Local) {
             });
         }
     }
+    // the same pair in tenths of a micron (centres less than a micron apart)
+    if case.off == 0 {
+        let sc = 1e-7;
+        let m0 = Circle2::new(0.0, 0.0, r0 * sc);
+        let m1p = m0.center + dir * (d * sc);
+        let m1 = Circle2::new(m1p.x, m1p.y, r1 * sc);
+        l.eval();
+        l.bucket("outer tangents of circles less than a micron apart");
+        match guarded(|| m0.outer_tangents_to(&m1)) {
+            Err(m) => {
+                l.check("outer tangents return", "panic", false, mk, || format!("scale {:e}: {}", sc, m));
+            }
+            Ok(None) => {
+                l.check("separate circles have outer tangents", "", false, mk, || format!("scale {:e}: r0 {} r1 {} d {}", sc, r0, r1, d));
+            }
+            Ok(Some((s0, s1))) => {
+                let mut worst_on = 0.0f64;
+                for s in [&s0, &s1] {
+                    worst_on = worst_on.max(m0.distance_to(&s.a).abs()).max(m1.distance_to(&s.b).abs());
+                }
+                l.check("outer tangent segments end on their circles and are perpendicular to both radii", "micro", worst_on <= 1e-9 * sc, mk, || format!("scale {:e}: on-circle error {:e}", sc, worst_on));
+            }
+        }
+    }
     // concentric -> None, nested -> no non-finite output
     l.eval();
     let cc = Circle2::new(off.x, off.y, r1 + 0.25);
@@ -382,35 +407,38 @@ fn judge_segment_exact(case: &Case, l: &mut Local) {
 
 fn judge_curve(case: &Case, l: &mut Local) {
     let mk = || serde_json::to_value(case).unwrap();
-    let pts: Vec<Point2> = case.verts.iter().map(|c| gen::p2([c[0], c[1]], 1.0)).collect();
-    let curve = match Curve2::from_points(&pts, 1e-9, false) {
-        Ok(c) => c,
-        Err(_) => return,
-    };
-    let v = curve.points().to_vec();
-    for (cx, cy, r) in [(1.0, 1.0, 0.75), (0.3, 0.2, 1.1), (2.5, 1.0, 1.0), (1.0, 1.0, 5.0), (0.5, 0.5, 0.5)] {
-        l.eval();
-        let c = Circle2::new(cx, cy, r);
-        let got = match guarded(|| curve.intersection(&c)) {
-            Ok(g) => g,
-            Err(m) => {
-                l.check("curve-circle intersection returns", "panic", false, mk, || m.clone());
-                continue;
-            }
+    // the same configuration in metres, in tenths of a micron and in tens of kilometres
+    for sc in [1.0, 1e-7, 1e4] {
+        let pts: Vec<Point2> = case.verts.iter().map(|c| gen::p2([c[0], c[1]], sc)).collect();
+        let curve = match Curve2::from_points(&pts, 1e-9 * sc, false) {
+            Ok(c) => c,
+            Err(_) => return,
         };
-        l.bucket("curve against circle");
-        l.outcome(hash_of(&(got.len().min(6), 7u8)));
-        let ok = got.iter().all(|p| p.x.is_finite() && c.distance_to(p).abs() <= 1e-7 && crate::refmodel::poly_dist2(&v, p) <= 1e-7);
-        l.check("curve-circle: every point lies on both objects", "", ok, mk, || format!("{:?}", got));
-        // robust reference count: edges with one end strictly inside and one strictly outside cross once
-        let mut robust = 0;
-        for i in 0..v.len() - 1 {
-            let (a, b) = (c.distance_to(&v[i]), c.distance_to(&v[i + 1]));
-            if (a < -1e-6 && b > 1e-6) || (a > 1e-6 && b < -1e-6) {
-                robust += 1;
+        let v = curve.points().to_vec();
+        for (cx, cy, r) in [(1.0, 1.0, 0.75), (0.3, 0.2, 1.1), (2.5, 1.0, 1.0), (1.0, 1.0, 5.0), (0.5, 0.5, 0.5)] {
+            l.eval();
+            let c = Circle2::new(cx * sc, cy * sc, r * sc);
+            let got = match guarded(|| curve.intersection(&c)) {
+                Ok(g) => g,
+                Err(m) => {
+                    l.check("curve-circle intersection returns", "panic", false, mk, || format!("scale {:e}: {}", sc, m));
+                    continue;
+                }
+            };
+            l.bucket(if sc == 1.0 { "curve against circle" } else { "curve against circle at another scale" });
+            l.outcome(hash_of(&(got.len().min(6), 7u8)));
+            let ok = got.iter().all(|p| p.x.is_finite() && c.distance_to(p).abs() <= 1e-7 * sc && crate::refmodel::poly_dist2(&v, p) <= 1e-7 * sc);
+            l.check("curve-circle: every point lies on both objects", "", ok, mk, || format!("scale {:e}: {:?}", sc, got));
+            // robust reference count: edges with one end strictly inside and one strictly outside cross once
+            let mut robust = 0;
+            for i in 0..v.len() - 1 {
+                let (a, b) = (c.distance_to(&v[i]), c.distance_to(&v[i + 1]));
+                if (a < -1e-6 * sc && b > 1e-6 * sc) || (a > 1e-6 * sc && b < -1e-6 * sc) {
+                    robust += 1;
+                }
             }
+            l.check("curve-circle: every edge leaving or entering the circle contributes a point", "", got.len() >= robust, mk, || format!("scale {:e}: {} points for {} in/out edges", sc, got.len(), robust));
         }
-        l.check("curve-circle: every edge leaving or entering the circle contributes a point", "", got.len() >= robust, mk, || format!("{} points for {} in/out edges", got.len(), robust));
     }
 }
 
@@ -672,6 +700,10 @@ pub fn cases(tier: Tier) -> Vec<Case> {
             for scale in [1.0, 1e-3, 50.0] {
                 out.push(Case { r0: scale, off, verts: s.iter().map(|i| lat[*i].to_vec()).collect(), ..base("arc3") });
             }
+        }
+        // small triangles very far from the origin (the orientation must come from coordinate differences)
+        for scale in [0.05, 1.0] {
+            out.push(Case { r0: scale, off: 2, verts: s.iter().map(|i| lat[*i].to_vec()).collect(), ..base("arc3") });
         }
     }
     out
